@@ -15,7 +15,7 @@ RULE = ("every element length 0..521 (exhaustive) x 3 byte patterns; every non-p
         "random multi-element scripts; EVERY prefix of every generated serialisation, single-byte corruptions and random byte "
         "strings as a differential against a strict parser; varints at and around 0xfc/0xfd/0xffff/0x10000/0xffffffff/2^32/"
         "2^64 plus random and every truncation of their encodings; distinct = distinct (monitor, case) digests"
-        " EXTENSIONS: + scripts whose total size sits on the varint thresholds of the length prefix (252/253, 65535/65536/65537, 128 KiB; thorough 16 MiB), elements around 65536 and 2^20 bytes, script histories across refused serialisations, standard templates and their neighbours (extra commands, every prefix, declared length off by -2..+3, two records)")
+        " EXTENSIONS: + scripts whose total size sits on the varint thresholds of the length prefix (252/253, 65535/65536/65537, 128 KiB; thorough 16 MiB), elements around 65536 and 2^20 bytes, script histories across refused serialisations, standard templates and their neighbours (extra commands, every prefix, declared length off by -2..+3, two records), one-byte number pushes next to every opcode and m-of-n shapes with data-element counts, request histories")
 LEVEL_TEXT = ("Each raw_serialize / serialize / parse / encode_varint / read_varint execution is compared with an own strict "
               "codec: push opcodes by length class, refusal above 520 bytes, exact round trip; the parser is run as a "
               "differential over all prefixes and corruptions: it must fail whenever the strict parser fails (input that ends "
@@ -408,6 +408,26 @@ def run(ctx):
                     judge_parse_diff(ctx, {"buf": rscr.enc_varint(len(body) + d) + body, "tag": "template-declared-length-off"})
                     judge_parse_diff(ctx, {"buf": rscr.enc_varint(len(body) + d) + body + gen.rbytes(rnd, 6), "tag": "template-declared-length-off-more-bytes"})
             judge_parse_diff(ctx, {"buf": ser + ser, "tag": "template-two-records"})
+    # small number pushes next to every opcode: a one-byte element (values that are also opcodes / small numbers / negative
+    # zero) followed by, preceded by and enclosed in every opcode - a serialiser that "normalises" a number push in some
+    # context (a multisig m/n, say) writes different bytes there - and the m-of-n shapes with m / n as data elements
+    for last in [0x00] + list(range(0x4E, 0x100)):
+        n += 1
+        if not ctx.mine(n):
+            continue
+        for v in (0x00, 0x01, 0x02, 0x03, 0x10, 0x11, 0x4F, 0x50, 0x51, 0x60, 0x80, 0x81, 0xFF):
+            e = bytes([v])
+            judge_script_roundtrip(ctx, {"cmds": [e, last]})
+            judge_script_roundtrip(ctx, {"cmds": [last, e]})
+            judge_script_roundtrip(ctx, {"cmds": [e, pk33, e, last]})
+    for m_, n_, op in ((1, 1, 0xAE), (2, 3, 0xAE), (2, 2, 0xAF), (3, 5, 0xAE), (16, 16, 0xAE), (1, 2, 0xAF)):
+        n += 1
+        if ctx.mine(n):
+            keys = [b"\x02" + gen.rbytes(rnd, 32) for _ in range(min(n_, 3))]
+            judge_script_roundtrip(ctx, {"cmds": [bytes([m_])] + keys + [bytes([n_]), op]})
+            judge_script_roundtrip(ctx, {"cmds": [0x50 + m_] + keys + [0x50 + n_, op]})
+            judge_script_roundtrip(ctx, {"cmds": [bytes([m_])] + keys + [0x50 + n_, op]})
+            judge_script_roundtrip(ctx, {"cmds": [0x00, bytes([m_])] + keys + [bytes([n_]), op, 0x87]})
     # crafted truncations (the D3 shapes)
     for buf, tag in ((b"\x15\x14" + b"\xaa" * 5, "short-push"), (b"\xfd", "varint-fd"), (b"\xfe\x01\x00", "varint-fe"), (b"\xff" + b"\x00" * 7, "varint-ff"),
                      (b"\x02\x4c", "pd1-nolen"), (b"\x03\x4d\x05", "pd2-halflen"), (b"\x03\x4c\x05\x01", "pd1-short"), (b"", "empty"),
